@@ -17,6 +17,12 @@ theorem fromStr_tables :
     Gen.digitsFromStr.all (fun e => decide (1 ≤ e.2 ∧ e.2 ≤ 10)) = true ∧ (1 ≤ Gen.digitsFallback ∧ Gen.digitsFallback ≤ 10) ∧
     Gen.algoFromStr.all (fun e => decide (e.2 < 3)) = true ∧ Gen.algoFallback < 3 := by decide
 
+/-- the spellings the library recognises (among the probed candidates, which include zero-padded, signed, spaced,
+wide-character and wrapping numerals): exactly the documented ones; everything else falls back to 6 digits / SHA-1 -/
+theorem C18_fromStr_documented :
+    Gen.digitsFromStr = [("6", 6), ("8", 8), ("9", 9), ("10", 10)] ∧ Gen.digitsFallback = 6 ∧
+    Gen.algoFromStr = [("SHA1", 0), ("SHA256", 1), ("SHA512", 2)] ∧ Gen.algoFallback = 0 := ⟨rfl, rfl, rfl, rfl⟩
+
 theorem digitsFromStr_range (s : Bytes) : 1 ≤ digitsFromStr s ∧ digitsFromStr s ≤ 10 := by
   unfold digitsFromStr
   cases h : Gen.digitsFromStr.find? (fun e => e.1.toUTF8.toList == s) with
@@ -132,6 +138,59 @@ theorem C18_registry (raw : Bytes) (hk : isKnownSuite raw = true) (hb : blank ra
     rw [if_neg (by decide)]
     simp [hb, hk]
 
+open OtpVerif.Std in
+/-- C18 (TOTP verdicts): `/totp/validate` answers 200 with exactly the library's verdict for the request's secret
+(white space trimmed, as the handler does), code, instant (the request's timestamp if positive, else the clock),
+digits, period, skew and hash -/
+theorem C18_totp_verdict (O : HashOracle) (r : OtpReq) (now : Int) (hb : blank r.secret = false) (hc : blank r.code = false)
+    (hP : r.period < 2 ^ 64) :
+    ∃ v e, validateTOTP O (trimSpace r.secret) r.code (if r.timestamp > 0 then r.timestamp else now)
+        (some ⟨digitsFromStr r.digits, r.period, r.skew, algoFromStr r.algorithm⟩) = .ok (v, e) ∧
+      totpValidate O .post (.otp r) now = ⟨200, .valid v⟩ := by
+  unfold totpValidate
+  rw [if_neg (show ¬ (Method.post ≠ Method.post) by decide)]
+  simp only [hb, hc, Bool.false_eq_true, if_false]
+  rcases Props.C13.C13_totp O (trimSpace r.secret) r.code (if r.timestamp > 0 then r.timestamp else now)
+      (some ⟨digitsFromStr r.digits, r.period, r.skew, algoFromStr r.algorithm⟩) (by simpa [resolveTOTP] using hP) with h | ⟨e, h⟩
+  · exact ⟨true, none, h, by rw [h]⟩
+  · exact ⟨false, some e, h, by rw [h]⟩
+
+open OtpVerif.Std in
+/-- C18 (OCRA generation): when the request passes the DTO checks, names a usable suite and carries decodable input
+fields, `/ocra/generate` answers with exactly what `GenerateOCRA` returns for that suite and input: the code with
+status 200, or 500 if the library refuses -/
+theorem C18_ocra_generate (O : HashOracle) (r : OcraReq) (cfg : SuiteConfig) (i : InputReq) (input : OCRAInput)
+    (hv : ocraValidateReq r false = none) (hs : ocraSuite r = .ok cfg) (hi : r.input = some i) (hin : ocraInputOf i = .ok input) :
+    ocraGenerate O .post (.ocra r) =
+      (match generateOCRA O r.secret cfg input with
+       | .ok code => ⟨200, .code code 0 0 cfg.raw⟩
+       | .err _ => err 500
+       | .panic => err 500) := by
+  unfold ocraGenerate
+  rw [if_neg (by decide)]
+  simp only [hv, hs, hi, hin, recover]
+  cases generateOCRA O r.secret cfg input <;> rfl
+
+open OtpVerif.Std in
+/-- C18 (OCRA verdicts): under the same conditions `/ocra/validate` answers 200 with exactly `ValidateOCRA`'s verdict,
+which is `true` iff `GenerateOCRA` returns the submitted code (C06) -/
+theorem C18_ocra_verdict (O : HashOracle) (r : OcraReq) (cfg : SuiteConfig) (i : InputReq) (input : OCRAInput)
+    (hv : ocraValidateReq r true = none) (hs : ocraSuite r = .ok cfg) (hi : r.input = some i) (hin : ocraInputOf i = .ok input) :
+    ∃ v, ocraValidate O .post (.ocra r) = ⟨200, .valid v⟩ ∧ (v = true ↔ generateOCRA O r.secret cfg input = .ok r.code) := by
+  unfold ocraValidate
+  rw [if_neg (by decide)]
+  simp only [hv, hs, hi, hin]
+  rcases Props.C06.C06_total O r.secret r.code cfg input with h | ⟨e, h⟩
+  · refine ⟨true, by rw [h], ?_⟩
+    exact ⟨fun _ => (Props.C06.C06_iff O r.secret r.code cfg input).mp h, fun _ => rfl⟩
+  · refine ⟨false, by rw [h], ?_⟩
+    constructor
+    · intro hf; cases hf
+    · intro hg
+      have := (Props.C06.C06_iff O r.secret r.code cfg input).mpr hg
+      rw [h] at this; cases this
+
+
 end OtpVerif.Props.C18
 
 #print axioms OtpVerif.Props.C18.fromStr_tables
@@ -140,3 +199,7 @@ end OtpVerif.Props.C18
 #print axioms OtpVerif.Props.C18.C18_hotp_verdict
 #print axioms OtpVerif.Props.C18.C18_hotp_gen_val
 #print axioms OtpVerif.Props.C18.C18_registry
+#print axioms OtpVerif.Props.C18.C18_totp_verdict
+#print axioms OtpVerif.Props.C18.C18_ocra_generate
+#print axioms OtpVerif.Props.C18.C18_ocra_verdict
+#print axioms OtpVerif.Props.C18.C18_fromStr_documented
